@@ -201,10 +201,16 @@ type linEnv struct {
 	lens  map[string]bool // atoms known to be >= 0 (lengths)
 	// elements of small local arrays addressed with constant indexes: "name[i]" -> affine value
 	elems map[string]linForm
+	// facts about atoms introduced while evaluating expressions (remainders), part of what is known on the path
+	facts linSys
+	// cur: the constraints of the path being extended, set by linWalk before it evaluates expressions (used to decide the
+	// sign of a dividend)
+	cur linSys
 }
 
 func (e *linEnv) clone() *linEnv {
 	n := &linEnv{info: e.info, vars: map[types.Object]linForm{}, defs: e.defs, atoms: e.atoms, lens: e.lens, elems: map[string]linForm{}}
+	n.facts = append(linSys{}, e.facts...)
 	for k, v := range e.vars {
 		n.vars[k] = v
 	}
@@ -296,6 +302,35 @@ func (e *linEnv) form(x ast.Expr, depth int) (linForm, bool) {
 			if r.isConst() {
 				return l.scale(r.c), true
 			}
+		case token.REM:
+			// x % m, m a length or a positive constant: evaluation continues only when m != 0, hence m >= 1;
+			// |x % m| <= m-1 and the remainder has the sign of x (Go truncated division)
+			pos := r.isConst() && r.c > 0
+			if len(r.co) == 1 && r.c == 0 {
+				for a, k := range r.co {
+					if k == 1 && e.lens[a] {
+						pos = true
+					}
+				}
+			}
+			if !pos {
+				return linForm{}, false
+			}
+			a := fmt.Sprintf("rem@%d", t.Pos())
+			e.atoms[a] = true
+			rem := lfAtom(a)
+			known := append(append(linSys{}, e.cur...), e.facts...)
+			for at := range e.lens {
+				known = append(known, lfAtom(at).scale(-1))
+			}
+			e.facts = append(e.facts, linLE(lfConst(1), r), linLE(rem, r.add(lfConst(1), -1)), linLE(r.scale(-1).add(lfConst(1), 1), rem))
+			if known.entails(linLE(lfConst(0), l)) {
+				e.facts = append(e.facts, linLE(lfConst(0), rem))
+			}
+			if known.entails(linLE(l, lfConst(0))) {
+				e.facts = append(e.facts, linLE(rem, lfConst(0)))
+			}
+			return rem, true
 		}
 	case *ast.UnaryExpr:
 		if t.Op == token.SUB {
@@ -394,6 +429,7 @@ func linWalk(paths []linPath, list []ast.Stmt, visit func(p linPath, st ast.Stmt
 			}
 			for i := range paths {
 				p := &paths[i]
+				p.env.cur = p.sys
 				if len(x.Lhs) != len(x.Rhs) {
 					for _, l := range x.Lhs {
 						if id, ok := l.(*ast.Ident); ok {
@@ -482,16 +518,17 @@ func linWalk(paths []linPath, list []ast.Stmt, visit func(p linPath, st ast.Stmt
 			}
 			var out []linPath
 			for _, p := range paths {
+				p.env.cur = p.sys
 				for _, cs := range p.env.cond(x.Cond, false) {
 					np := linPath{env: p.env.clone(), sys: append(append(linSys{}, p.sys...), cs...)}
-					if np.sys.infeasible() {
+					if np.known().infeasible() {
 						continue
 					}
 					out = append(out, linWalk([]linPath{np}, x.Body.List, visit)...)
 				}
 				for _, cs := range p.env.cond(x.Cond, true) {
 					np := linPath{env: p.env.clone(), sys: append(append(linSys{}, p.sys...), cs...)}
-					if np.sys.infeasible() {
+					if np.known().infeasible() {
 						continue
 					}
 					switch el := x.Else.(type) {
@@ -517,6 +554,69 @@ func linWalk(paths []linPath, list []ast.Stmt, visit func(p linPath, st ast.Stmt
 				visit(p, st)
 			}
 			return nil
+		case *ast.ForStmt:
+			// sound over-approximation: the variables assigned in the loop are unknown at its head; the body is walked once
+			// under the loop condition (its obligations are visited), execution continues under the negated condition
+			if x.Init != nil {
+				paths = linWalk(paths, []ast.Stmt{x.Init}, visit)
+			}
+			var out []linPath
+			for _, p := range paths {
+				visit(p, st)
+				havoc := map[types.Object]bool{}
+				collect := func(n ast.Node) {
+					if n == nil {
+						return
+					}
+					ast.Inspect(n, func(m ast.Node) bool {
+						switch y := m.(type) {
+						case *ast.AssignStmt:
+							for _, l := range y.Lhs {
+								if id, ok := ast.Unparen(l).(*ast.Ident); ok && p.env.info.Defs[id] == nil {
+									if o := p.env.info.ObjectOf(id); o != nil {
+										havoc[o] = true
+									}
+								}
+							}
+						case *ast.IncDecStmt:
+							if id, ok := ast.Unparen(y.X).(*ast.Ident); ok {
+								if o := p.env.info.ObjectOf(id); o != nil {
+									havoc[o] = true
+								}
+							}
+						}
+						return true
+					})
+				}
+				collect(x.Body)
+				if x.Post != nil {
+					collect(x.Post)
+				}
+				head := linPath{env: p.env.clone(), sys: append(linSys{}, p.sys...)}
+				for o := range havoc {
+					a := o.Name() + "@loop" + itoaSigned(int64(x.Pos()))
+					head.env.atoms[a] = true
+					head.env.vars[o] = lfAtom(a)
+				}
+				if x.Cond != nil {
+					head.env.cur = head.sys
+					for _, cs := range head.env.cond(x.Cond, false) {
+						np := linPath{env: head.env.clone(), sys: append(append(linSys{}, head.sys...), cs...)}
+						if !np.known().infeasible() {
+							linWalk([]linPath{np}, x.Body.List, visit)
+						}
+					}
+					for _, cs := range head.env.cond(x.Cond, true) {
+						np := linPath{env: head.env.clone(), sys: append(append(linSys{}, head.sys...), cs...)}
+						if !np.known().infeasible() {
+							out = append(out, np)
+						}
+					}
+				} else {
+					linWalk([]linPath{{env: head.env.clone(), sys: head.sys}}, x.Body.List, visit)
+				}
+			}
+			paths = out
 		default:
 			for _, p := range paths {
 				visit(p, st)
@@ -524,4 +624,14 @@ func linWalk(paths []linPath, list []ast.Stmt, visit func(p linPath, st ast.Stmt
 		}
 	}
 	return paths
+}
+
+// known: the constraints of the path together with the facts attached to its atoms (remainders) and the
+// non-negativity of lengths.
+func (p linPath) known() linSys {
+	out := append(append(linSys{}, p.sys...), p.env.facts...)
+	for a := range p.env.lens {
+		out = append(out, lfAtom(a).scale(-1))
+	}
+	return out
 }
